@@ -7,9 +7,13 @@
 (* A definition is built field by field (AddField) and then instantiated (Call) in one of three ways:  *)
 (* all arguments positional, the second half as keywords, or with every defaulted field left out.      *)
 (* TLC enumerates all definitions up to MaxFields exhaustively and draws longer ones with -simulate.   *)
+(* A definition may also be *derived* (Derive): the fields defined so far become a base class of their  *)
+(* own and the one or two fields added afterwards belong to a subclass of it.  Its meaning is that of   *)
+(* the concatenated field list - whichever of the two classes was materialised or used first.           *)
 EXTENDS Wire
 
 CONSTANTS MaxFields,      \* longest definition explored
+          DerivedMax,     \* longest *derived* definition explored (base fields ++ own fields)
           Kinds           \* field kinds (registered format names) used by the definitions
 
 NestedCls == "messaging.anonymization.payload.IntroductionInfo"     \* shipped class used for nested / listed fields
@@ -60,13 +64,14 @@ ArgVal(k, i, j) == KDom(k)[((i + j) % 3) + 1]
 DefaultVal(k) == KDom(k)[4]
 
 VARIABLES def,       \* sequence of [k: kind, d: has a default, h: has custom rules, dv: the default value]
+          split,     \* 0, or the number of leading fields that belong to the base class of a derived definition
           dphase,    \* "define" | "called"
           style,     \* "" | "positional" | "keyword" | "defaulted"
           args,      \* the argument given for every field (ignored for an omitted one)
           fields,    \* field values the instance must have after construction
           pbytes,    \* bytes the instance must pack to
           pdec       \* what decoding those bytes must give
-dvars == <<def, dphase, style, args, fields, pbytes, pdec>>
+dvars == <<def, split, dphase, style, args, fields, pbytes, pdec>>
 WireIdle == /\ kind = "none" /\ fmt = "" /\ val = <<>> /\ pad = 0 /\ bytes = <<>> /\ data = <<>> /\ dec = Err
             /\ re = <<>> /\ phase = "none"
 
@@ -80,18 +85,27 @@ DecDefFrom(df, i, d, off, acc) ==
        ELSE DecDefFrom(df, i + 1, d, r.end, Append(acc, IF df[i].h THEN HookUnpack(df[i].k, r.val) ELSE r.val))
 DecDef(df, d) == DecDefFrom(df, 1, d, 0, <<>>)
 
-DInit == /\ def = <<>> /\ dphase = "define" /\ style = "" /\ args = <<>> /\ fields = <<>> /\ pbytes = <<>> /\ pdec = Err
+DInit == /\ def = <<>> /\ split = 0 /\ dphase = "define" /\ style = "" /\ args = <<>> /\ fields = <<>> /\ pbytes = <<>> /\ pdec = Err
 
 AddField(k, d, h) ==
   /\ dphase = "define" /\ Len(def) < MaxFields
+  /\ split > 0 => (Len(def) - split < 2 /\ Len(def) < DerivedMax)   \* a subclass adds one or two fields
   /\ Len(def) > 0 => def[Len(def)].k # "raw"                      \* 'raw' swallows the rest: last field only
   /\ h => (k \in Hookable /\ \A i \in 1..Len(def) : ~def[i].h)      \* at most one field with custom rules
   /\ (Len(def) > 0 /\ def[Len(def)].d) => d                        \* defaults form a suffix (Python signature rule)
   /\ def' = Append(def, [k |-> k, d |-> d, h |-> h, dv |-> IF d THEN DefaultVal(k) ELSE <<>>])
-  /\ UNCHANGED <<dphase, style, args, fields, pbytes, pdec>>
+  /\ UNCHANGED <<split, dphase, style, args, fields, pbytes, pdec>>
+
+(* the fields so far become a base class; what follows is defined in a class derived from it *)
+Derive ==
+  /\ dphase = "define" /\ split = 0 /\ Len(def) > 0 /\ Len(def) < DerivedMax /\ Len(def) < MaxFields
+  /\ def[Len(def)].k # "raw"
+  /\ split' = Len(def)
+  /\ UNCHANGED <<def, dphase, style, args, fields, pbytes, pdec>>
 
 Call(st) ==
   /\ dphase = "define" /\ Len(def) > 0
+  /\ split > 0 => Len(def) > split
   /\ st = "defaulted" => \E i \in 1..Len(def) : def[i].d
   /\ LET j  == CASE st = "positional" -> 1 [] st = "keyword" -> 2 [] st = "defaulted" -> 3
          a  == [i \in 1..Len(def) |-> ArgVal(def[i].k, i, j)]
@@ -102,9 +116,10 @@ Call(st) ==
          b  == EncDef(def, fs)
      IN /\ args' = a /\ fields' = fs /\ pbytes' = b /\ pdec' = DecDef(def, b)
   /\ style' = st /\ dphase' = "called"
-  /\ UNCHANGED def
+  /\ UNCHANGED <<def, split>>
 
 DNext == (\/ \E k \in Kinds, d \in BOOLEAN, h \in BOOLEAN : AddField(k, d, h)
+          \/ Derive
           \/ \E st \in {"positional", "keyword", "defaulted"} : Call(st))
          /\ UNCHANGED vars
 DSpec == (DInit /\ WireIdle) /\ [][DNext]_<<dvars, vars>>
